@@ -27,11 +27,14 @@ def showNats (l : List Nat) : String := "[" ++ ",".intercalate (l.map toString) 
 def digest (st : State) : String :=
   let s := st.srv
   let conns := "[" ++ ",".intercalate (s.conns.map (fun c => s!"{c.id}@{c.owner}")) ++ "]"
-  let srv := s!"srv:{showP s.node.st},{showSvc s.op},{showH s.health},{showF s.file},{showF s.downloads},{conns}"
+  let ftpc := match s.ftpc with | some f => showSvc f | none => "-"
+  let svc := if s.installed then s!"{showSvc s.op},{showH s.health}" else "absent,absent"
+  let srv := s!"srv:{showP s.node.st},{svc},{showF s.file},{showF s.downloads},{conns},ftpc={ftpc},port={showBool s.listening}"
   let bk := s!"bk:{showP st.bk.node.st},{showSvc st.bk.ftps},{showF st.bk.stored}"
   let cl := st.clients.map (fun c =>
-    if c.installed then s!"c:{showP c.node.st},{showApp c.app},{showNats c.conns},{showOpt toString c.native}"
-    else s!"c:{showP c.node.st},absent")
+    let dm := if c.dmInstalled then s!",dm{c.dmStage}" else ""
+    if c.installed then s!"c:{showP c.node.st},{showApp c.app},{showNats c.conns},{showOpt toString c.native}{dm}"
+    else s!"c:{showP c.node.st},absent{dm}")
   let hs := "H:" ++ "".intercalate (st.handles.map (fun h => if h.active then "1" else "0"))
   " ".intercalate ([srv, bk] ++ cl ++ [hs])
 
@@ -58,34 +61,49 @@ def parseOp : List String → Option Op
   | ["rs", i, q] => do some (.ransom (← i.toNat?) (← parseSql q))
   | ["svc", r] => (parseSvcReq r).map .svc
   | ["spw", pw] => (optNat pw).map .setPw
-  | ["backup"] => some .backup
-  | ["restore"] => some .restore
+  | ["backup"] => some (.backup true)
+  | ["backup", b] => (parseBool b).map .backup
+  | ["restore"] => some (.restore true true)
+  | ["restore", d, k] => do some (.restore (← parseBool d) (← parseBool k))
+  | ["fodel"] => some .folderDelete
+  | ["bkdel"] => some .bkDelete
+  | ["adm", "ftpc", r] => (parseSvcReq r).map (fun r => .admin (.ftpc r))
+  | ["adm", "ftpcun"] => some (.admin .ftpcUninstall)
+  | ["adm", "svcun"] => some (.admin .svcUninstall)
+  | ["adm", "bkcfg", b] => (parseBool b).map (fun b => .admin (.bkcfg b))
+  | ["adm", "coin"] => some (.admin .coInstall)
+  | ["adm", "coun"] => some (.admin .coUninstall)
+  | ["dm", i, q, sc, ak, via] => do some (.dm (← i.toNat?) (← parseSql q) (← parseBool sc) (← parseBool ak) (← parseBool via))
+  | ["rsx", i, q] => do some (.ransomReq (← i.toNat?) (← parseSql q))
   | ["fdel"] => some .fileDelete
   | ["fcor"] => some .fileCorrupt
   | ["frep"] => some .fileRepair
   | ["pow", who, on] => do some (.power (← who.toNat?) (← parseBool on))
   | ["ftps", b] => (parseBool b).map .ftps
   | ["blk", w, on] => do some (.block (← w.toNat?) (← parseBool on))
-  | ["tick"] => some .tick
+  | ["tick"] => some (.tick true true true)
+  | ["tick", b, d, k] => do some (.tick (← parseBool b) (← parseBool d) (← parseBool k))
   | _ => none
 
 def stepLine (st : State) : List String → State × String
-  | ["new", n, mx, fix, rst, sUp, sDown, bUp, bDown, cUp, cDown, spw] =>
+  | ["new", n, mx, fix, rst, sUp, sDown, bUp, bDown, cUp, cDown, spw, bkcfg] =>
     match n.toNat?, mx.toNat?, fix.toNat?, rst.toNat?, sUp.toNat?, sDown.toNat?, bUp.toNat?, bDown.toNat?,
-          cUp.toNat?, cDown.toNat?, optNat spw with
-    | some n, some mx, some fix, some rst, some sUp, some sDown, some bUp, some bDown, some cUp, some cDown, some spw =>
-      if sDown = 0 ∨ bDown = 0 ∨ cDown = 0 then (st, "bad-op") else
-      ({ srv := { node := { upDur := sUp, downDur := sDown }, maxSessions := mx, fixDur := fix, restartDur := rst, password := spw },
+          cUp.toNat?, cDown.toNat?, optNat spw, parseBool bkcfg with
+    | some n, some mx, some fix, some rst, some sUp, some sDown, some bUp, some bDown, some cUp, some cDown, some spw, some bkcfg =>
+      ({ srv := { node := { upDur := sUp, downDur := sDown }, maxSessions := mx, fixDur := fix, restartDur := rst, password := spw,
+                  backupConfigured := bkcfg },
          bk := { node := { upDur := bUp, downDur := bDown } },
          clients := List.replicate n { node := { upDur := cUp, downDur := cDown } } }, "ok")
-    | _, _, _, _, _, _, _, _, _, _, _ => (st, "bad-op")
-  | ["cfg", i, pw, rs, rspw] =>
-    match i.toNat?, optNat pw, parseBool rs, optNat rspw with
-    | some i, some pw, some rs, some rspw =>
+    | _, _, _, _, _, _, _, _, _, _, _, _ => (st, "bad-op")
+  | ["cfg", i, pw, rs, rspw, dm, dmpw, dmrep] =>
+    match i.toNat?, optNat pw, parseBool rs, optNat rspw, parseBool dm, optNat dmpw, parseBool dmrep with
+    | some i, some pw, some rs, some rspw, some dm, some dmpw, some dmrep =>
       match st.client? i with
-      | some c => (st.setClient i { c with serverPw := pw, rsInstalled := rs, rsApp := if rs then .running else .closed, rsPw := rspw }, "ok")
+      | some c => (st.setClient i { c with serverPw := pw, rsInstalled := rs, rsApp := if rs then .running else .closed, rsPw := rspw,
+                                           dmInstalled := dm, dmApp := if dm then .running else .closed, dmPw := dmpw,
+                                           dmRepeat := dmrep }, "ok")
       | none => (st, "bad-op")
-    | _, _, _, _ => (st, "bad-op")
+    | _, _, _, _, _, _, _ => (st, "bad-op")
   | ["state"] => (st, digest st)
   | ws =>
     match parseOp ws with
